@@ -158,6 +158,7 @@ namespace zoo {
       Namer namer;
       Probe probe;
       std::string current_row;
+      std::function<void(Ctx&, std::size_t)> on_register;     // called with the index of every entry right after it was built (bare state)
       // operand pools (pairwise distinct, of the right static type)
       std::vector<const ipr::Expr*> ex;
       std::vector<const ipr::Type*> ty;
@@ -281,6 +282,9 @@ namespace zoo {
    void build_all(Ctx&);
    // Implementation classes that no factory returns directly (constants, internals reachable through accessors).
    void register_constants_and_internals(Ctx&);
+
+   // Call one accessor under the C14 discipline (logic_error = refusal; anything else is recorded in ctx.probe.bad).
+   void guarded(Ctx&, std::string& out, const char* name, const std::function<std::string()>& f);
 
    // Fingerprint of any node through the accessors of its dynamic interface (dispatch by accept()).
    std::string observe(Ctx&, const ipr::Node&);
